@@ -10,6 +10,14 @@ Engine: production client Transport against a raw-mode puppet server on the in-m
     on any live channel               - Transport.cancel_port_forward
                                       - open / close further client channels
 
+A history runs on 1-3 client transports living in ONE process (each against its own puppet server): every operation names
+the transport it acts on; transports are added and closed in the middle of a history ("newconn"/"closeconn"), so a kind may be
+enabled on one transport while ANOTHER one (concurrent, or created after the enabling one was closed) receives the CHANNEL_OPEN.
+The model is per transport: what counts is what *that* client enabled itself.  A refused open must not surface on any transport.
+The verdict uses the wire replies and accept()/handler deliveries only (the private channel table is an optional extra observation).
+A failure that hypothesis cannot reproduce from the history alone (state left behind by transports of an earlier history of
+the process) is still reported: the case file then carries "earlier_in_process" and replay() re-creates that state first.
+
 The harness drives one operation at a time and closes it with a sentinel (an unhandled message
 type whose UNIMPLEMENTED echo carries the sentinel's sequence number), so that everything the client
 sent in reaction to the operation is in the puppet's log when the oracle runs: no sleeps.
@@ -28,7 +36,7 @@ Accepting an enabled kind is recorded (class counts) but not demanded: the state
 import threading
 
 from hypothesis import strategies as st
-from hypothesis.stateful import RuleBasedStateMachine, precondition, rule
+from hypothesis.stateful import RuleBasedStateMachine, initialize, precondition, rule
 
 from vlib import peers
 from vlib import refssh as R
@@ -36,13 +44,14 @@ from vlib import refssh as R
 PROPERTY = "C18"
 LEVEL = "exploration"
 RULE = (
-    "hypothesis RuleBasedStateMachine, client under test vs raw puppet server: rules = server GLOBAL_REQUEST (tcpip-forward, "
+    "hypothesis RuleBasedStateMachine over 1-3 client transports in one process (each vs its own raw puppet server; transports are "
+    "added and closed mid-history, every rule draws the transport it acts on, model per transport): rules = server GLOBAL_REQUEST (tcpip-forward, "
     "cancel-tcpip-forward, keepalive, no-more-sessions, random name; want_reply 0/1), server CHANNEL_OPEN (session, x11, "
     "auth-agent@openssh.com, forwarded-tcpip, direct-tcpip, random kind), server CHANNEL_REQUEST (exec, shell, subsystem, pty-req, env, "
     "x11-req, auth-agent-req, window-change, exit-status, xon-xoff, random; want_reply 0/1) on client- or server-opened channels, "
     "client request_x11 (granted/refused), request_forward_agent, request_port_forward (granted/refused, handler/accept queue), "
-    "cancel_port_forward, open/close client channel; non-trivial = history with a server-initiated action after an enable or "
-    "after a cancel; distinct by the operation list"
+    "cancel_port_forward, open/close client channel, new transport, close transport; non-trivial = history with a server-initiated "
+    "action after an enable (on this or another transport of the history) or after a cancel; distinct by the operation list"
 )
 
 TO = 15.0  # "never" detector on a shared machine, not a performance bound
@@ -54,10 +63,127 @@ class Stop(Exception):
     """A violation was reported in collect mode (replay): stop executing this history."""
 
 
+_PROCESS_ENABLED = set()  # forwarding kinds any client transport of this process has ever enabled (harness bookkeeping)
+
+
 class Sess:
+    """One history: several client transports in ONE process (each with its own raw puppet server).  Every operation
+    names the connection it acts on; the model (which kinds were enabled) is kept per connection, because the statement
+    is about what *that* client enabled itself."""
+
+    MAX_CONNS = 3
+
     def __init__(self, ctx):
         self.ctx = ctx
         self.ops = []
+        self.conns = []  # live connections
+        self.n_made = 0
+        self.n_closed = 0
+        self.nontrivial = False
+        self.classes = []
+        self.dead = False
+        # kinds some connection of this history has enabled (and not cancelled) / had enabled when it was closed
+        self.closed_enabled = set()
+        self.earlier = sorted(_PROCESS_ENABLED)
+
+    def close(self):
+        for c in self.conns:
+            c.close()
+        self.conns = []
+
+    def fail(self, clause, bucket, detail):
+        self.dead = True
+        case = {"ops": self.ops}
+        if self.earlier:
+            # what transports of EARLIER histories in this process had enabled: replay() re-creates it with a throw-away
+            # transport first, so that a leak across Transport objects reproduces from the file alone
+            case["earlier_in_process"] = self.earlier
+        self.ctx.violation(clause, bucket, case, detail)  # raises in machine mode
+        raise Stop()
+
+    def prelude(self, kinds):
+        """replay only: a transport that enables ``kinds`` and is closed again before the history starts."""
+        c = Conn(self, -1)
+        try:
+            c.op_copen({})
+            for kind in kinds:
+                if kind == "x11":
+                    c.op_x11({"chan": 0, "grant": True, "handler": False})
+                elif kind == "auth-agent@openssh.com":
+                    c.op_agent({"chan": 0})
+                elif kind == "forwarded-tcpip":
+                    c.op_fwd({"addr": "", "port": 8080, "grant": True, "handler": False})
+        finally:
+            c.close()
+        del self.classes[:]
+
+    def conn(self, idx):
+        return self.conns[idx % len(self.conns)]
+
+    def needs_chan(self, op):
+        return op["op"] in ("creq", "x11", "agent", "cclose")
+
+    def runnable(self, op):
+        k = op["op"]
+        if k == "newconn":
+            return len(self.conns) < self.MAX_CONNS
+        if not self.conns:
+            return False
+        if k == "closeconn":
+            return len(self.conns) >= 2
+        c = self.conn(op.get("conn", 0))
+        if self.needs_chan(op) and not c.chans:
+            return False
+        if k == "cancel":
+            return bool(c.tcp) or not c.after_cancel
+        if k == "copen":
+            return len(c.chans) < 4
+        if k == "cclose":
+            return len(c.chans) > 1
+        return True
+
+    def do(self, op):
+        if self.dead or not self.runnable(op):
+            return
+        self.ops.append(op)
+        k = op["op"]
+        if k == "newconn":
+            c = Conn(self, self.n_made)
+            self.n_made += 1
+            self.conns.append(c)
+            if self.n_closed:
+                self.classes.append("transport-created-after-another-was-closed")
+            if len(self.conns) >= 2:
+                self.classes.append("transports-live=%d" % len(self.conns))
+            c.op_copen(op)
+            return
+        c = self.conn(op.get("conn", 0))
+        if k == "closeconn":
+            self.conns.remove(c)
+            for kind in FORWARD_KINDS:
+                if c.enabled(kind):
+                    self.closed_enabled.add(kind)
+            c.close()
+            self.n_closed += 1
+            self.classes.append("transport-closed")
+            return
+        getattr(c, "op_" + k)(op)
+
+    def elsewhere(self, me, kind):
+        """Where else in this process the kind is/was enabled: 'live-other' / 'closed-other' / None."""
+        if any(c is not me and c.enabled(kind) for c in self.conns):
+            return "live-other"
+        if kind in self.closed_enabled:
+            return "closed-other"
+        return None
+
+
+class Conn:
+    def __init__(self, sess, no):
+        self.sess = sess
+        self.ctx = sess.ctx
+        self.no = no
+        self.classes = sess.classes  # shared list
         self.link, self.tc, self.ts, _ = peers.connected_pair(client_cls=peers.VTransport, server_cls=peers.Puppet)
         self.ts.raw()
         self.seen = 0
@@ -69,9 +195,6 @@ class Sess:
         self.handled = []  # channels handed to explicit handlers
         self.after_enable = False
         self.after_cancel = False
-        self.nontrivial = False
-        self.classes = []
-        self.dead = False
 
     # ------------------------------------------------------------------ plumbing
     def close(self):
@@ -80,9 +203,7 @@ class Sess:
         peers.shutdown(self.tc, self.ts)
 
     def fail(self, clause, bucket, detail):
-        self.dead = True
-        self.ctx.violation(clause, bucket, {"ops": self.ops}, detail)  # raises in machine mode
-        raise Stop()
+        self.sess.fail(clause, bucket, "[transport #%d] %s" % (self.no, detail))
 
     def sync(self, what):
         """Returns the log entries the client produced since the last sync (sentinel echo removed)."""
@@ -143,7 +264,11 @@ class Sess:
             raise peers.core.HarnessError("C18 harness: client call %s did not return" % what)
 
     def n_client_channels(self):
-        return len(self.tc._channels)
+        # observation only (private table): when it is not there the wire replies + accept()/handler deliveries decide
+        try:
+            return len(self.tc._channels)
+        except Exception:
+            return None
 
     def drain_accept(self):
         out = []
@@ -157,15 +282,9 @@ class Sess:
         return self.chans[idx % len(self.chans)]
 
     # ------------------------------------------------------------------ operations
-    def do(self, op):
-        if self.dead:
-            return
-        self.ops.append(op)
-        getattr(self, "op_" + op["op"])(op)
-
     def _server_action(self):
-        if self.after_enable or self.after_cancel:
-            self.nontrivial = True
+        if self.after_enable or self.after_cancel or any(c.after_enable for c in self.sess.conns) or self.sess.closed_enabled:
+            self.sess.nontrivial = True
         if self.after_enable:
             self.classes.append("action-after-enable")
         if self.after_cancel:
@@ -237,12 +356,23 @@ class Sess:
         if kind == "forwarded-tcpip" and self.after_cancel and not en:
             self.classes.append("open:forwarded-tcpip:after-cancel")
         if not en:
+            other = self.sess.elsewhere(self, kind)
+            if other:
+                self.classes.append("open:%s:not-enabled-here-but-on-%s-transport" % (kc, other))
+            # a channel of a refused kind must not surface anywhere in the process: not on this client, not on another one
+            stray = []
+            for c in self.sess.conns:
+                if c is not self:
+                    got = c.drain_accept() + c.handled
+                    c.handled = []
+                    stray += got
             if any(e[1] == 91 for e in replies):
-                self.fail("channel-open-refused", "OPEN_CONFIRMATION:%s:%s" % (kc, self._state()), "kind %r confirmed although not enabled: %r" % (kind, [(e[1], e[2].hex()) for e in replies]))
+                self.fail("channel-open-refused", "OPEN_CONFIRMATION:%s:%s" % (kc, self._state()), "kind %r confirmed although not enabled on this transport (elsewhere: %s): %r" % (kind, other, [(e[1], e[2].hex()) for e in replies]))
             if len(replies) != 1:
                 self.fail("channel-open-refused", "no-OPEN_FAILURE:%s" % kc, "kind %r: replies %r" % (kind, [(e[1], e[2][:16].hex()) for e in new]))
-            if delivered or self.n_client_channels() != before:
-                self.fail("channel-open-refused", "channel-created:%s" % kc, "kind %r refused on the wire but delivered=%d table %d->%d" % (kind, len(delivered), before, self.n_client_channels()))
+            after = self.n_client_channels()
+            if delivered or stray or (before is not None and after is not None and after != before):
+                self.fail("channel-open-refused", "channel-created:%s" % kc, "kind %r refused on the wire but delivered=%d (other transports: %d) table %r->%r" % (kind, len(delivered), len(stray), before, after))
             return
         # enabled kind: acceptance is allowed; keep the model in step with what the client did
         if len(replies) == 1 and replies[0][1] == 91:
@@ -283,10 +413,6 @@ class Sess:
             return b""
         return op["rest"]
 
-    @staticmethod
-    def needs_chan(op):
-        return op["op"] in ("creq", "x11", "agent", "cclose")
-
     def op_creq(self, op):
         self._server_action()
         ch = self.chan(op["chan"])
@@ -315,6 +441,7 @@ class Sess:
             if "e" in res:
                 raise peers.core.HarnessError("C18 harness: granted request_x11 raised %r" % (res["e"],))
             self.x11 = True
+            _PROCESS_ENABLED.add("x11")
             self.after_enable = True
             self.classes.append("enable:x11")
         else:
@@ -333,6 +460,7 @@ class Sess:
         self.wait_msg(lambda e: e[1] == 98 and e[2][:4] == R.u32(ch["pid"]) and b"auth-agent-req@openssh.com" in e[2], "auth-agent-req")
         if r:
             self.agent = True
+            _PROCESS_ENABLED.add("auth-agent@openssh.com")
             self.after_enable = True
             self.classes.append("enable:agent")
         self.sync("agent")
@@ -350,6 +478,7 @@ class Sess:
             if "e" in res:
                 raise peers.core.HarnessError("C18 harness: granted request_port_forward raised %r" % (res["e"],))
             self.tcp.add((op["addr"], res["v"]))
+            _PROCESS_ENABLED.add("forwarded-tcpip")
             self.after_enable = True
             self.classes.append("enable:tcp")
         else:
@@ -395,6 +524,7 @@ ports = st.sampled_from([0, 22, 8080, 65535])
 def run(ctx):
     ctx.set_budget(85, 780)
     ctx.assume("the puppet server answers the client's own requests (x11-req, tcpip-forward, cancel) as drawn; well-formed payloads for known request/open names")
+    conn_ix = st.integers(0, Sess.MAX_CONNS - 1)
 
     class Machine(RuleBasedStateMachine):
         def __init__(self):
@@ -403,62 +533,71 @@ def run(ctx):
             if ctx.out_of_time():
                 return
             self.s = Sess(ctx)
-            self.s.do({"op": "copen"})
 
         def _do(self, op):
             if self.s is None or self.s.dead:
-                return
-            if Sess.needs_chan(op) and not self.s.chans:
                 return
             try:
                 self.s.do(op)
             except Stop:  # only reachable when ctx.violation did not raise (listed finding)
                 pass
 
-        @rule(name=st.one_of(st.sampled_from(GLOBAL_NAMES), rand_name), want=st.booleans(), rest=small_rest, addr=addrs, port=ports)
-        def server_global(self, name, want, rest, addr, port):
+        @initialize(n=st.sampled_from([1, 1, 2, 3]))
+        def connect(self, n):
+            for _ in range(n):
+                self._do({"op": "newconn"})
+
+        @precondition(lambda self: self.s is not None and len(self.s.conns) < Sess.MAX_CONNS)
+        @rule()
+        def new_transport(self):
+            self._do({"op": "newconn"})
+
+        @precondition(lambda self: self.s is not None and len(self.s.conns) >= 2)
+        @rule(conn=conn_ix)
+        def close_transport(self, conn):
+            self._do({"op": "closeconn", "conn": conn})
+
+        @rule(conn=conn_ix, name=st.one_of(st.sampled_from(GLOBAL_NAMES), rand_name), want=st.booleans(), rest=small_rest, addr=addrs, port=ports)
+        def server_global(self, conn, name, want, rest, addr, port):
             if name in ("tcpip-forward", "cancel-tcpip-forward"):
                 rest = R.string(addr.encode()) + R.u32(port)
-            self._do({"op": "global", "name": name, "want": want, "rest": rest})
+            self._do({"op": "global", "conn": conn, "name": name, "want": want, "rest": rest})
 
-        @rule(kind=st.one_of(st.sampled_from(OPEN_KINDS), st.sampled_from(FORWARD_KINDS), rand_name), window=win, maxpkt=pkt, addr=addrs, port=ports, rest=small_rest)
-        def server_open(self, kind, window, maxpkt, addr, port, rest):
-            self._do({"op": "sopen", "kind": kind, "window": window, "maxpkt": maxpkt, "addr": addr, "port": port, "rest": rest})
+        @rule(conn=conn_ix, kind=st.one_of(st.sampled_from(OPEN_KINDS), st.sampled_from(FORWARD_KINDS), rand_name), window=win, maxpkt=pkt, addr=addrs, port=ports, rest=small_rest)
+        def server_open(self, conn, kind, window, maxpkt, addr, port, rest):
+            self._do({"op": "sopen", "conn": conn, "kind": kind, "window": window, "maxpkt": maxpkt, "addr": addr, "port": port, "rest": rest})
 
-        @rule(kind=st.sampled_from(FORWARD_KINDS), window=win, maxpkt=pkt, addr=addrs, port=ports)
-        def server_open_feature(self, kind, window, maxpkt, addr, port):
-            self._do({"op": "sopen", "kind": kind, "window": window, "maxpkt": maxpkt, "addr": addr, "port": port, "rest": b""})
+        @rule(conn=conn_ix, kind=st.sampled_from(FORWARD_KINDS), window=win, maxpkt=pkt, addr=addrs, port=ports)
+        def server_open_feature(self, conn, kind, window, maxpkt, addr, port):
+            self._do({"op": "sopen", "conn": conn, "kind": kind, "window": window, "maxpkt": maxpkt, "addr": addr, "port": port, "rest": b""})
 
-        @rule(chan=st.integers(0, 7), name=st.one_of(st.sampled_from(REQ_NAMES), st.sampled_from(RUN_REQS), rand_name), want=st.booleans(), rest=small_rest, status=st.integers(0, 0xFFFFFFFF))
-        def server_chan_request(self, chan, name, want, rest, status):
-            self._do({"op": "creq", "chan": chan, "name": name, "want": want, "rest": rest, "status": status})
+        @rule(conn=conn_ix, chan=st.integers(0, 7), name=st.one_of(st.sampled_from(REQ_NAMES), st.sampled_from(RUN_REQS), rand_name), want=st.booleans(), rest=small_rest, status=st.integers(0, 0xFFFFFFFF))
+        def server_chan_request(self, conn, chan, name, want, rest, status):
+            self._do({"op": "creq", "conn": conn, "chan": chan, "name": name, "want": want, "rest": rest, "status": status})
 
-        @rule(chan=st.integers(0, 7), grant=st.booleans(), handler=st.booleans(), screen=st.integers(0, 3))
-        def client_x11(self, chan, grant, handler, screen):
-            self._do({"op": "x11", "chan": chan, "grant": grant, "handler": handler, "screen": screen})
+        @rule(conn=conn_ix, chan=st.integers(0, 7), grant=st.booleans(), handler=st.booleans(), screen=st.integers(0, 3))
+        def client_x11(self, conn, chan, grant, handler, screen):
+            self._do({"op": "x11", "conn": conn, "chan": chan, "grant": grant, "handler": handler, "screen": screen})
 
-        @rule(chan=st.integers(0, 7))
-        def client_agent(self, chan):
-            self._do({"op": "agent", "chan": chan})
+        @rule(conn=conn_ix, chan=st.integers(0, 7))
+        def client_agent(self, conn, chan):
+            self._do({"op": "agent", "conn": conn, "chan": chan})
 
-        @rule(addr=addrs, port=ports, grant=st.sampled_from([True, True, True, False]), handler=st.booleans())
-        def client_forward(self, addr, port, grant, handler):
-            self._do({"op": "fwd", "addr": addr, "port": port, "grant": grant, "handler": handler})
+        @rule(conn=conn_ix, addr=addrs, port=ports, grant=st.sampled_from([True, True, True, False]), handler=st.booleans())
+        def client_forward(self, conn, addr, port, grant, handler):
+            self._do({"op": "fwd", "conn": conn, "addr": addr, "port": port, "grant": grant, "handler": handler})
 
-        @precondition(lambda self: self.s is not None and (self.s.tcp or not self.s.after_cancel))
-        @rule(which=st.integers(0, 3), grant=st.sampled_from([True, True, True, False]))
-        def client_cancel(self, which, grant):
-            self._do({"op": "cancel", "which": which, "grant": grant})
+        @rule(conn=conn_ix, which=st.integers(0, 3), grant=st.sampled_from([True, True, True, False]))
+        def client_cancel(self, conn, which, grant):
+            self._do({"op": "cancel", "conn": conn, "which": which, "grant": grant})
 
-        @precondition(lambda self: self.s is not None and len(self.s.chans) < 4)
-        @rule()
-        def client_open(self):
-            self._do({"op": "copen"})
+        @rule(conn=conn_ix)
+        def client_open(self, conn):
+            self._do({"op": "copen", "conn": conn})
 
-        @precondition(lambda self: self.s is not None and len(self.s.chans) > 1)
-        @rule(chan=st.integers(0, 7))
-        def client_close(self, chan):
-            self._do({"op": "cclose", "chan": chan})
+        @rule(conn=conn_ix, chan=st.integers(0, 7))
+        def client_close(self, conn, chan):
+            self._do({"op": "cclose", "conn": conn, "chan": chan})
 
         def teardown(self):
             s = self.s
@@ -472,24 +611,33 @@ def run(ctx):
     try:
         ctx.explore_machine(Machine, ctx.scale(100, 1000), steps=30)
     except Exception as e:
-        # Once the safety-net budget is exhausted the machine turns into a no-op, which hypothesis reports as
-        # flaky data generation when it happens while a failing history is being shrunk/replayed. That says
-        # nothing about paramiko: keep the (unshrunk) failure if there is one, else the run is inconclusive.
+        # hypothesis reports "flaky" when a failing history does not fail again (or draws differently) on re-execution:
+        #  * the safety-net budget ran out and the machine turned into a no-op while shrinking: says nothing about paramiko;
+        #  * the client's behaviour depends on something outside the history - state shared by the Transport objects of the
+        #    process that an EARLIER history left behind.  The refusal was observed on the wire all the same: a client that
+        #    accepts what this history never enabled violates the statement whether or not the history alone reproduces it.
+        # Keep the (unshrunk) failure in both cases; without one the run is inconclusive.
         import hypothesis.errors as HE
 
-        if not (ctx.budget_hit and isinstance(e, HE.Flaky)):
+        flaky = tuple(getattr(HE, n) for n in ("Flaky", "FlakyStrategyDefinition", "FlakyFailure", "FlakyReplay") if hasattr(HE, n))
+        if not isinstance(e, flaky):
             raise
-        ctx.inconc("budget-hit-while-shrinking")
+        ctx.inconc("budget-hit-while-shrinking" if ctx.budget_hit else "failure-not-reproducible-from-its-history-alone")
         if ctx._last_fail is not None and ctx._last_fail[0] not in ctx.unknown and ctx._last_fail[0] not in ctx.known_hits:
             ctx._record_unknown(*ctx._last_fail)
+        elif ctx._last_fail is None:
+            raise
 
 
 def replay(ctx, case):
     s = Sess(ctx)
     try:
-        for op in case["ops"]:
-            if Sess.needs_chan(op) and not s.chans:
-                continue
+        if case.get("earlier_in_process"):
+            s.prelude(case["earlier_in_process"])
+        ops = case["ops"]
+        if not any(op["op"] == "newconn" for op in ops):
+            ops = [{"op": "newconn"}] + list(ops)  # histories saved before several transports per history existed
+        for op in ops:
             try:
                 s.do(op)
             except Stop:
